@@ -1,4 +1,4 @@
 """READY: properties whose check is finished and registered in MANIFEST.json.
 NOT_APPLICABLE: reasons for properties not claimed (property id -> reason)."""
-READY = {"C01", "C02", "C03", "C04", "C05", "C06", "C07", "C08", "C09", "C12", "C13", "C14", "C15", "C16", "C17", "C18", "C19", "C20", "C21", "C22", "C23", "C25", "C26", "C27", "C28", "C29", "C30", "C31", "C32", "C33", "C34", "C36", "C37", "C38", "C39"}
+READY = {"C%02d" % i for i in range(1, 40)}
 NOT_APPLICABLE = {}
